@@ -20,6 +20,8 @@ def monitors(ctx):
 
 def run(ctx):
     monitor.enable(*monitors(ctx))
+    from .. import w_suite
+    w_suite.maybe(ctx)      # thorough tier: the repository's own tests under this property's monitors
     ctx.floor('C09.aligned', 300)
     ctx.floor('C09.law_fold', 50)
     ctx.floor('C09.law_roundtrip', 100)
